@@ -19,6 +19,7 @@ Terms are hashable tuples:
   ("havoc", uid, old)             value of storage after an effectful opaque call got `&mut` to it
 """
 import re
+import time
 from .facts import Call, op_place
 
 CORE_ENUMS = {
@@ -110,7 +111,7 @@ class Path:
 
 class Symex:
     def __init__(self, facts, models=None, max_depth=8, loop_bound=2, max_paths=50000, no_inline=(),
-                 inline_crates=("geo", "geo_types", "geo_verif_roots"), mono=None, opaque_ok=True):
+                 inline_crates=("geo", "geo_types", "geo_verif_roots"), mono=None, opaque_ok=True, budget_s=20.0):
         self.facts = facts
         self.models = dict(DEFAULT_MODELS)
         if models:
@@ -125,15 +126,23 @@ class Symex:
         self.mono = mono
         self.opaque_calls = {}
         self.watch_adts = set()
+        self.root_inst = None
+        self._cl_cache = {}
+        self.budget_s = budget_s
+        self.deadline = None
+        self.steps = 0
 
     # ------------------------------------------------------------------ entry
-    def run(self, fn, args=None):
+    def run(self, fn, args=None, inst=None):
         st = St()
         if args is None:
             args = [("arg", i) for i in range(1, fn.arg_count + 1)]
         self.npaths = 0
+        self.root_inst = inst
+        self.deadline = time.time() + self.budget_s
+        self.steps = 0
         out = []
-        for st2, kind, val in self.call_fn(fn, list(args), st, inst=None):
+        for st2, kind, val in self.call_fn(fn, list(args), st, inst=inst):
             out.append(Path(kind, self.canon(st2, val) if kind == "ret" else val, st2))
         return out
 
@@ -159,6 +168,9 @@ class Symex:
 
     def exec_from(self, fn, st, bb, fu, inst):
         while True:
+            self.steps += 1
+            if self.deadline is not None and self.steps % 256 == 0 and time.time() > self.deadline:
+                raise Unanalysable("analysis budget of %.0fs exhausted" % self.budget_s)
             vk = (fu, bb)
             n = st.visits.get(vk, 0) + 1
             st.visits[vk] = n
@@ -177,9 +189,10 @@ class Symex:
             if k == "goto":
                 bb = t["t"]
             elif k == "return":
-                self.npaths += 1
-                if self.npaths > self.max_paths:
-                    raise Unanalysable("more than %d paths" % self.max_paths)
+                if st.depth <= 1:
+                    self.npaths += 1
+                    if self.npaths > self.max_paths:
+                        raise Unanalysable("more than %d paths" % self.max_paths)
                 yield st, "ret", st.frames[fu].get(0, UNIT)
                 return
             elif k == "drop":
@@ -526,9 +539,13 @@ class Symex:
                 r = {"Add": lambda: x + y, "Sub": lambda: x - y, "Mul": lambda: x * y,
                      "Eq": lambda: x == y, "Ne": lambda: x != y, "Lt": lambda: x < y, "Le": lambda: x <= y,
                      "Gt": lambda: x > y, "Ge": lambda: x >= y,
-                     "BitAnd": lambda: x & y, "BitOr": lambda: x | y, "BitXor": lambda: x ^ y}.get(op)
+                     "BitAnd": lambda: x & y, "BitOr": lambda: x | y, "BitXor": lambda: x ^ y,
+                     "Rem": lambda: (x % y if isinstance(x, int) and isinstance(y, int) and x >= 0 and y > 0 else None),
+                     "Div": lambda: (x // y if isinstance(x, int) and isinstance(y, int) and x >= 0 and y > 0 else None)}.get(op)
                 if r is not None:
-                    return ("const", r())
+                    rv = r()
+                    if rv is not None:
+                        return ("const", rv)
             except Exception:
                 pass
         if op in ("Lt", "Le", "Eq"):
@@ -597,6 +614,11 @@ class Symex:
 
     def dispatch(self, st, call, args, inst, fn):
         # 1. models
+        if call.trait in ("core::iter::traits::iterator::Iterator", "core::iter::traits::double_ended::DoubleEndedIterator", "core::iter::traits::exact_size::ExactSizeIterator"):
+            r = m_iter_pure(self, st, call, args)
+            if r is not NotImplemented:
+                yield from r
+                return
         for key in (call.path, call.callee, "%s::%s" % (call.trait, call.method) if call.trait else None):
             if key and key in self.models:
                 r = self.models[key](self, st, call, args)
@@ -704,7 +726,7 @@ class Symex:
                     env = ("&", fv)
             else:
                 env = fv
-            return self._call_closure(st, cf, [env] + list(tup[1]))
+            return self._call_closure(st, cf, [env] + list(tup[1]), self.closure_inst(cf.key))
         if fv[0] == "fn":
             return NotImplemented
         return NotImplemented
@@ -712,9 +734,23 @@ class Symex:
     def canon_keep(self, st, v):
         return v
 
-    def _call_closure(self, st, cf, args):
+    def _call_closure(self, st, cf, args, inst=None):
         st.trace.append(("enter", cf.path, tuple(self.canon(st, a) for a in args), None, None))
-        yield from self.call_fn(cf, args, st, None)
+        yield from self.call_fn(cf, args, st, inst)
+
+    def closure_inst(self, key):
+        """Instance id of a closure in the mono graph reachable from the current root instance (first match)."""
+        if self.mono is None or self.root_inst is None:
+            return None
+        cache = self._cl_cache.get(self.root_inst)
+        if cache is None:
+            cache = {}
+            for i in self.mono.reach(self.root_inst, lambda x: x["crate"] in self.inline_crates):
+                x = self.mono.inst(i)
+                if x["key"] not in cache:
+                    cache[x["key"]] = i
+            self._cl_cache[self.root_inst] = cache
+        return cache.get(key)
 
 
 def _ptr_like(ty):
@@ -772,6 +808,14 @@ def m_cmp(op, flip=False, neg=False):
             x, y = a[1], b[1]
             r = {"lt": x < y, "le": x <= y, "eq": x == y}[op]
             return _ret(st, ("const", (not r) if neg else r))
+        if a[0] == "adt" and b[0] == "adt" and not a[3] and not b[3] and a[1] == b[1]:
+            # fieldless enum values: derived PartialEq / PartialOrd compare discriminants
+            vs = ex.enum_variants(a[1])
+            if vs:
+                d = dict(vs)
+                x, y = d[a[2]], d[b[2]]
+                r = {"lt": x < y, "le": x <= y, "eq": x == y}[op]
+                return _ret(st, ("const", (not r) if neg else r))
         if not scalar_like(a) or not scalar_like(b):
             return NotImplemented
         t = ("cmp", op, a, b)
@@ -797,14 +841,19 @@ def m_from(ex, st, call, args):
     # <T as From<T>>::from  is the identity; anything else is left to inlining / opaque
     if call.resolved and call.resolved.startswith("core::convert::<impl core::convert::From<T> for T>"):
         return _ret(st, args[0])
+    g = call.gargs
+    if len(g) == 2 and g[0] == g[1] and call.callee == "core::convert::From::from":
+        return _ret(st, args[0])
     return NotImplemented
 
 
 def m_into(ex, st, call, args):
-    if call.resolved and "core::convert::<impl core::convert::Into<U> for T>" in call.resolved:
-        g = call.gargs
-        if len(g) == 2 and g[0] == g[1]:
+    g = call.gargs
+    if len(g) == 2:
+        if g[0] == g[1]:
             return _ret(st, args[0])
+        if g[1] == "core::option::Option<%s>" % g[0]:
+            return _ret(st, ("adt", "core::option::Option", "Some", (args[0],)))
     return NotImplemented
 
 
@@ -855,6 +904,9 @@ def m_from_residual(ex, st, call, args):
 
 
 def m_index(ex, st, call, args):
+    head = ty_head(call.self_ty or "")
+    if not (head in ("alloc::vec::Vec", "alloc::collections::vec_deque::VecDeque") or head.startswith("[")):
+        return NotImplemented      # user Index impls are inlined like any other function
     r = args[0]
     i = ex.canon(st, args[1])
     if r[0] == "ref":
@@ -884,6 +936,184 @@ def m_partial_ord_cmp_scalar(ex, st, call, args):
     return NotImplemented
 
 
+ITER_PURE = ("any", "all", "find", "find_map", "position", "rposition", "count", "sum", "product", "min", "max", "min_by", "max_by",
+             "min_by_key", "max_by_key", "fold", "last", "nth", "map", "filter", "filter_map", "flat_map", "flatten", "chain", "zip",
+             "enumerate", "rev", "skip", "take", "skip_while", "take_while", "cloned", "copied", "peekable", "collect", "unzip",
+             "partition", "reduce", "try_fold", "is_sorted", "eq", "cmp", "partial_cmp", "step_by", "cycle", "fuse", "inspect", "scan",
+             "map_while", "by_ref", "size_hint")
+
+
+def m_iter_pure(ex, st, call, args):
+    """Iterator adaptors / consumers as pure terms over the (loaded) iterator value: the sequence algebra of E5."""
+    if call.method not in ITER_PURE:
+        return NotImplemented
+    if call.method in ("all", "any"):
+        r = m_all_any(call.method)(ex, st, call, args)
+        if r is not NotImplemented:
+            return r
+    vals = []
+    for i, a in enumerate(args):
+        if i == 0 and a[0] in ("ref", "&"):
+            a = ex.deref_val(st, a)
+        vals.append(ex.canon(st, a))
+    return _ret(st, ("call", "Iterator::" + call.method, tuple(vals)))
+
+
+def _as_array(ex, st, v):
+    """Concrete element tuple of an array / slice value (through references), or None."""
+    for _ in range(6):
+        if v[0] == "ref":
+            v = ex.load(st, v[1])
+        elif v[0] == "&":
+            v = v[1]
+        else:
+            break
+    if v[0] == "array":
+        return v
+    return None
+
+
+def _call_closure_paths(ex, st, f, argvals):
+    """Invoke a closure value (or a reference to one) on explicit arguments; yields (st, value)."""
+    fv = f
+    if f[0] == "ref":
+        fv = ex.load(st, f[1])
+    elif f[0] == "&":
+        fv = f[1]
+    if fv[0] != "closure":
+        raise Unanalysable("callee is not a closure literal")
+    cf = ex.facts.by_key.get(fv[1])
+    if cf is None:
+        raise Unanalysable("closure body missing")
+    env_ty = cf.locals[1] if len(cf.locals) > 1 else ""
+    if env_ty.startswith("&"):
+        env = f if f[0] in ("ref", "&") else ("&", fv)
+    else:
+        env = fv
+    for s2, kind, val in ex.call_fn(cf, [env] + list(argvals), st, ex.closure_inst(fv[1])):
+        if kind != "ret":
+            raise Unanalysable("closure diverges")
+        yield s2, val
+
+
+def m_array_map(ex, st, call, args):
+    arr = _as_array(ex, st, args[0])
+    if arr is None:
+        return NotImplemented
+    f = args[1]
+
+    def gen(s, i, acc):
+        if i == len(arr[1]):
+            yield s, "ret", ("array", tuple(acc))
+            return
+        for s2, v in _call_closure_paths(ex, s, f, [arr[1][i]]):
+            yield from gen(s2, i + 1, acc + [v])
+    return gen(st, 0, [])
+
+
+def _fork_bool(ex, st, b):
+    """yield (state, python bool) for a boolean term, forking when it is symbolic"""
+    b = ex.canon(st, b)
+    flip = False
+    while b[0] == "un" and b[1] == "Not":
+        b = b[2]
+        flip = not flip
+    if b[0] == "const":
+        yield st, bool(b[1]) != flip
+        return
+    if b in st.pc:
+        yield st, (st.pc[b] == 1) != flip
+        return
+    for val in (0, 1):
+        s2 = st.clone()
+        s2.assume(b, val)
+        yield s2, (val == 1) != flip
+
+
+def _concrete_seq(ex, st, it):
+    """Elements of an iterator value over a concrete array: windows(n) / iter()."""
+    it = ex.canon(st, it)
+    while it[0] == "&":
+        it = it[1]
+    if it[0] == "call" and it[1].endswith("::windows") and len(it[2]) == 2 and it[2][1][0] == "const":
+        arr = it[2][0]
+        while arr[0] == "&":
+            arr = arr[1]
+        if arr[0] == "array":
+            n = it[2][1][1]
+            xs = arr[1]
+            return [("&", ("array", tuple(xs[i:i + n]))) for i in range(len(xs) - n + 1)]
+    if it[0] == "call" and (it[1].endswith("<impl [T]>::iter") or it[1].endswith("IntoIterator>::into_iter")) and it[2]:
+        arr = it[2][0]
+        while arr[0] == "&":
+            arr = arr[1]
+        if arr[0] == "array":
+            return [("&", x) for x in arr[1]]
+    return None
+
+
+def m_all_any(kind):
+    def model(ex, st, call, args):
+        itv = args[0]
+        if itv[0] in ("ref", "&"):
+            itv = ex.deref_val(st, itv)
+        seq = _concrete_seq(ex, st, itv)
+        if seq is None or len(args) < 2:
+            return NotImplemented
+        f = args[1]
+
+        def gen(s, i):
+            if i == len(seq):
+                yield s, "ret", ("const", kind == "all")
+                return
+            for s2, v in _call_closure_paths(ex, s, f, [seq[i]]):
+                for s3, b in _fork_bool(ex, s2, v):
+                    if kind == "all" and not b:
+                        yield s3, "ret", FALSE
+                    elif kind == "any" and b:
+                        yield s3, "ret", TRUE
+                    else:
+                        yield from gen(s3, i + 1)
+        return gen(st, 0)
+    return model
+
+
+def m_sort(ex, st, call, args):
+    """sort() of a small array of symbolic enum values: concretise every element, then order by discriminant."""
+    r = args[0]
+    if r[0] != "ref":
+        return NotImplemented
+    arr = ex.load(st, r[1])
+    if arr[0] != "array" or len(arr[1]) > 4:
+        return NotImplemented
+    g = call.gargs[0] if call.gargs else ""
+    vs = ex.enum_variants(ty_head(g))
+    if not vs or any(len(x) != 2 for x in vs):
+        return NotImplemented
+
+    def gen(s, i, acc):
+        if i == len(arr[1]):
+            order = {name: d for name, d in vs}
+            srt = sorted(acc, key=lambda a: order[a[2]])
+            ex.store(s, r[1], ("array", tuple(srt)), log=False)
+            yield s, "ret", UNIT
+            return
+        e = ex.canon(s, arr[1][i])
+        if e[0] == "adt":
+            yield from gen(s, i + 1, acc + [e])
+            return
+        d = ("discr", e, ty_head(g))
+        known = s.pc.get(d)
+        for name, dv in vs:
+            if known is not None and known != dv:
+                continue
+            s2 = s if known is not None else s.clone()
+            if known is None:
+                s2.assume(d, dv)
+            yield from gen(s2, i + 1, acc + [("adt", ty_head(g), name, ())])
+    return gen(st, 0, [])
+
+
 DEFAULT_MODELS = {
     "core::cmp::PartialOrd::lt": m_cmp("lt"),
     "core::cmp::PartialOrd::le": m_cmp("le"),
@@ -903,6 +1133,10 @@ DEFAULT_MODELS = {
     "alloc::vec::Vec::<T, A>::len": m_len,
     "core::slice::<impl [T]>::len": m_len,
     "core::borrow::Borrow::borrow": m_identity,
+    "core::array::<impl [T; N]>::map": m_array_map,
+    "alloc::slice::<impl [T]>::sort": m_sort,
+    "core::slice::<impl [T]>::sort_unstable": m_sort,
+    "core::iter::traits::collect::IntoIterator::into_iter": lambda ex, st, call, args: NotImplemented,
     "alloc::boxed::Box::<T>::new_uninit": m_box_new_uninit,
     "alloc::boxed::box_assume_init_into_vec_unsafe": m_vec_macro,
 }
